@@ -19,7 +19,6 @@ by the nondeterministic stub below whose contract is
 Symbolic inputs: the chunk->worker assignment, every scheduling choice, the per-chunk counters and histogram
 keys.  The text that the pipeline writes per chunk is concrete (it passes through dnaio / io, compiled code).
 """
-import io
 import pickle
 
 from harness.e2_common import e2_jobs, e2_run_job, e2_replay
@@ -1018,36 +1017,44 @@ CONDITIONS = [c for c in CONDITIONS if not (c["name"] in _seen or _seen.add(c["n
 def describe():
     return {
         "functions": ["runners.py:ParallelPipelineRunner.run (main loop), ._try_receive", "runners.py:OrderedChunkWriter.write/wrote_everything",
-                      "runners.py:WorkerProcess.run/_send_outfiles", "runners.py:SerialPipelineRunner.run (reference side of the statistics conditions)",
+                      "runners.py:WorkerProcess.run/_send_outfiles", "runners.py:SerialPipelineRunner.run (the single-core side of the statistics comparison)",
                       "files.py:OutputFiles.open_text/open_record_writer/proxy_files/binary_files", "files.py:ProxyTextFile, ProxyRecordWriter (write/drain/__getstate__/__setstate__)",
                       "report.py:Statistics.__iadd__/collect/_collect_step/_collect_modifier, add_if_not_none", "statistics.py:ReadLengthStatistics.__iadd__",
                       "adapters.py:EndStatistics.__iadd__, SingleAdapterStatistics.__iadd__ (Front/Back), LinkedAdapterStatistics.__iadd__, AnywhereAdapterStatistics.__iadd__"],
         "bounds": {
-            "quick": {"chunks": "0..4", "workers": "1..3", "output files": "1..3 (text, single record file, two-file and interleaved paired record writers)",
-                      "schedules": "every chunk->worker assignment and every sequence of wait() results: all non-empty subsets of the ready connections for C<=3 (W<=3) and C=4 (W<=2); "
-                                   "all singleton sequences for C=4, W=3 (a subset round is processed exactly like consecutive singleton rounds by the loop under test; subsets are what C<=3 adds); "
-                                   "ready list in list order, reversed order in two shapes",
-                      "statistics": "3 chunks x 2 workers and 2 chunks x 3 workers, every assignment and arrival order; per chunk symbolic counters 0..1000 (reads, bp, quality-trimmed, with-adapter, filtered, "
-                                    "reverse-complemented), length histograms with <= 3 keys (key 0..2, count 0..3) for R1 and R2, poly-A histograms (key 0..2, count 0..3 per read), "
-                                    "adapter error tables (removed length 0..2, errors 0..1, count 0..3, adjacent base one of A,C,G,T,other) for back, front, anywhere and linked adapters; "
-                                    "9 modifier configurations (none / single / --revcomp / paired R1-only, R2-only, both / --pair-adapters / paired --revcomp) decide which fields are None"},
-            "thorough": {"chunks": "0..5", "workers": "1..3", "output files": "1..3", "schedules": "as quick plus all subset sequences for C=4, W=3, C=5, W=2 and all singleton sequences for C=5, W=3",
-                         "statistics": "as quick with both shapes for every aspect"},
+            "quick": {"chunks": "0..4", "workers": "1..3", "output files": "1..3 (text file, single record file, two-file and interleaved paired record writers)",
+                      "schedules": "every chunk->worker assignment x every sequence of wait() results: all non-empty subsets of the ready connections for C<=3 (W<=3) and for C=4 with W<=2; all singleton "
+                                   "sequences for C=4, W=3 (the loop under test processes a subset round exactly like consecutive singleton rounds, so singletons already give every processing order; the "
+                                   "subset rounds are covered on the smaller shapes); ready list in list order, in reversed order for three shapes",
+                      "statistics": "3 chunks x 2 workers and 2 chunks x 3 workers (adapter tables also 2 x 2): every assignment x every arrival order of the workers' final (-1, statistics) messages; "
+                                    "9 modifier configurations (none; single-end with NextSeq/quality/adapter/poly-A/filter; single-end --revcomp; paired none; paired R1-only / R2-only / both; --pair-adapters; "
+                                    "paired --revcomp) decide which fields are None. 'counters' conditions: two symbolic counters 0..1000 per chunk driving reads, bp, quality-trimmed bp, reads with adapters, "
+                                    "filtered, reverse-complemented, histogram and error-table counts. keyed conditions: one symbolic dictionary key per chunk - read-length histograms of R1 / R2 (<= 3 keys), "
+                                    "poly-A histograms of R1 / R2 (<= 3 keys), adapter error tables (removed length 0..2, errors 0..1, adjacent base A/C/G/T/other) for every end of a back, front, anywhere and "
+                                    "linked adapter - with concrete counts that collide across chunks"},
+            "thorough": {"chunks": "0..5", "workers": "1..3", "output files": "1..3", "schedules": "as quick plus all subset sequences for C=4, W=3 and C=5, W=2, all singleton sequences for C=5, W=3, symbolic counters for C=3, W=3",
+                         "statistics": "as quick plus 3 chunks x 3 workers for every aspect and every (configuration, adapter end) pair in both shapes"},
         },
         "outside_bounds": ["more than 5 chunks / 3 workers / 3 files", "pipe buffering, process start-up and termination, the reader's need-work queue protocol (replaced by the stated contract)",
-                           "the output-format decision of the proxied writers (-j 2 -o out.fasta writes FASTQ): the reference takes the serialisation of a fresh proxied writer of the same kind as given (see C19)",
-                           "the text of the reads (concrete per chunk; it only passes through dnaio / io)", "error paths (-2 messages)"],
-        "stubs": ["multiprocessing.connection.wait (name 'multiprocessing' rebound inside cutadapt.runners): returns an arbitrary non-empty subset (symbolic choice) of the connections with pending messages",
-                  "worker->main Connection: FIFO list; recv on an exhausted connection = the main process would block forever = violation",
+                           "the output-format decision of the proxied writers (-j 2 -o out.fasta writes FASTQ, see C19): the expected content of a file is what a fresh proxied writer of the same kind produces when it "
+                           "receives all chunks in input order and is drained once, so the serialisation format is taken as given; order, exactly-once and the file <-> writer association are checked",
+                           "the text of the reads (concrete per chunk; it only passes through dnaio / io)", "error paths (-2 messages)", "matching: adapters are stand-ins without aligner (only their statistics objects are real)"],
+        "stubs": ["multiprocessing.connection.wait (the name 'multiprocessing' is rebound inside cutadapt.runners only): returns an arbitrary non-empty subset (symbolic choice) of the connections with pending messages",
+                  "worker->main Connection: FIFO list; recv on an exhausted connection = the main process would block forever = violation; recv/recv_bytes on a message of the other kind = violation",
                   "reader->worker pipe: each chunk index is handed to exactly one (symbolic) worker, in increasing order, followed by the stop token",
-                  "_start_workers: no process is started; each worker gets pickled copies of (pipeline, proxy files) and its real WorkerProcess.run() is executed to completion before the main loop (sound because the main "
-                  "loop only observes per-connection FIFO order and the wait() results)",
-                  "Pipeline.process_reads: writes a fixed text per (chunk, file) into the real proxied writers and adds the symbolic per-chunk quantities to the counters of the real modifier/step objects",
-                  "binary output files and Progress: recording stand-ins"],
-        "assumptions": ["the stub contract above (FIFO pipes; wait returns only connections that have data; chunks are dealt in increasing index order)", "CrossHair's model of int/list/dict operations",
+                  "_start_workers: no process is started; each worker gets pickled copies of (pipeline, proxy files) and its real WorkerProcess.run() is executed to completion before the main loop consumes anything "
+                  "(sound: the main loop only observes per-connection FIFO order and the wait() results; any real interleaving shows it a subset of the ready sets allowed here)",
+                  "Pipeline.process_reads: writes a fixed text per (chunk, file) into the real proxied writers and adds the per-chunk quantities to the counters of the real modifier/step objects (QualityTrimmer, "
+                  "NextseqQualityTrimmer, AdapterCutter, PairedAdapterCutter, (Paired)ReverseComplementer, PolyATrimmer, Single/PairedEndFilter, Single/PairedEndSink) from which the real Statistics.collect reads them",
+                  "adapters: subclasses of Back/Front/AnywhereAdapter without aligner and k-mer tables (real create_statistics, real LinkedAdapter)", "binary output files, Progress, process objects: recording stand-ins"],
+        "assumptions": ["the stub contract above (FIFO pipes; wait returns only connections that have data; chunks are dealt in increasing index order; every worker eventually sends its final message)",
+                        "conditions whose symbolic inputs are only choices (assignment, wait() results, dictionary keys) run the loops outside CrossHair's tracer once the choices are concrete - every value the code sees is "
+                        "concrete then, CrossHair enumerates the choices; conditions with symbolic counters are traced throughout", "CrossHair's model of int/list/dict operations",
                         "only 'Confirmed over all paths' counts as discharged"],
-        "rule": "one CrossHair condition per (shape, configuration); symbolic: chunk->worker assignment, wait() choices, per-chunk counters and histogram keys. non-trivial = conditions with more than one explored path whose reachability twin is refuted",
-        "level_note": "message level: the real run() loop and the real worker loop are executed in one process; OS-level interleaving is replaced by the stated nondeterministic stub",
+        "rule": "one CrossHair condition per (shape, configuration, aspect); symbolic: chunk->worker assignment, wait() choices, per-chunk counters or histogram keys. non-trivial = conditions with more than one explored "
+                "path whose reachability twin is refuted",
+        "level_note": "message level, bounded: the real run() loop, the real worker loop and the real serial runner are executed in one process; OS-level interleaving is replaced by the stated nondeterministic stub. "
+                      "Outside the claim: pipe buffering, process start-up/termination, the reader's queue protocol, the output-format decision of proxied writers.",
     }
 
 
